@@ -286,7 +286,7 @@ pub fn edge_elem(t: &mut crate::engine::Tape<'_>, tw: &Tower, prime: &FieldCtx) 
         let (v, c) = crate::gen::edge_value(t, prime);
         return (Elem::P(v), c);
     }
-    let cls = t.weighted(&[1, 1, 2, 2, 2, 8]);
+    let cls = t.weighted(&[1, 1, 2, 2, 2, 8, 1]);
     let zero = BigUint::zero();
     let (coeffs, name): (Vec<BigUint>, &'static str) = match cls {
         0 => (vec![zero; d], "zero"),
@@ -312,6 +312,15 @@ pub fn edge_elem(t: &mut crate::engine::Tape<'_>, tw: &Tower, prime: &FieldCtx) 
             // some coordinates zero
             let v = (0..d).map(|_| if t.bool() { BigUint::zero() } else { crate::gen::edge_value(t, prime).0 }).collect();
             (v, "sparse")
+        },
+        6 => {
+            // the unit plus one further non-zero coordinate ("almost one")
+            let mut v = vec![zero; d];
+            v[0] = BigUint::one();
+            let i = 1 + t.idx(d - 1);
+            let x = crate::gen::edge_value(t, prime).0;
+            v[i] = if x.is_zero() { BigUint::one() } else { x };
+            (v, "unit-plus-one-coordinate")
         },
         _ => ((0..d).map(|_| crate::gen::edge_value(t, prime).0).collect(), "dense"),
     };
